@@ -248,6 +248,33 @@ impl Check for C19 {
                 ));
             }
         }
+        // a second program under the SAME module path on the same interpreter, which fails or is
+        // left suspended; what the host then reads (result, exports) must not depend on whether the
+        // two runs were started with prepare() or with eval()
+        if scn.case.module_path.is_some() && d2.result.starts_with("complete:") && rep.failure.is_none() {
+            let second = |driver: Driver| -> (Outcome, Outcome) {
+                tsrun::verif::reset();
+                let first_spec = base_spec(scn, driver);
+                let mut h = crate::host::new_interp_with(first_spec.clock_start, first_spec.random_seed, &first_spec.internal_sources);
+                let a = crate::props::c11::run_to_end(&mut h, first_spec.clone());
+                let mut again = first_spec;
+                again.source = "export const second_only: number = 1;\nconsole.log(\"second run\");\nfunction die(): any { throw new RangeError(\"second run dies\"); }\ndie();\nexport const never: number = 2;".to_string();
+                let b = crate::props::c11::run_to_end(&mut h, again);
+                tsrun::verif::set_fuel(None);
+                (a, b)
+            };
+            let (_, by_step) = second(Driver::Step);
+            let (_, by_eval) = second(Driver::Eval);
+            rep.bump("second_run_under_same_path", 1);
+            let view = |o: &Outcome| format!("{} | {:?} | {:?}", o.error_text.clone().unwrap_or(o.result.clone()), o.console, o.exports);
+            if view(&by_step) != view(&by_eval) {
+                rep.fail(Failure::new(
+                    "second_run_under_same_path_differs_between_prepare_and_eval",
+                    view(&by_eval).chars().take(200).collect::<String>(),
+                    json!({"prepare_step": view(&by_step), "eval": view(&by_eval)}),
+                ));
+            }
+        }
         rep.bump("suspensions", d2.suspensions);
         rep.bump("import_rounds", d2.import_rounds);
         rep.bump("runs_ending_in_error", d2.result.starts_with("error:") as u64);
